@@ -264,7 +264,13 @@ SeqOfSet(S) ==     \* the elements of a finite set of integers in increasing ord
         F(T) == IF T = {} THEN <<>> ELSE LET x == CHOOSE y \in T : \A z \in T : y <= z IN <<x>> \o F(T \ {x})
     IN F(S)
 
-Subsets(N, lo, hi) == {S \in SUBSET (1..N) : Cardinality(S) >= lo /\ Cardinality(S) <= hi}
+\* subsets of 1..N with lo..hi elements (hi <= 3), built directly rather than by filtering SUBSET (1..N)
+SubsetsOfSize(N, k) ==
+    CASE k = 0 -> {{}}
+      [] k = 1 -> {{i} : i \in 1..N}
+      [] k = 2 -> {T \in {{i, j} : i \in 1..N, j \in 1..N} : Cardinality(T) = 2}
+      [] k = 3 -> {T \in {{i, j, l} : i \in 1..N, j \in 1..N, l \in 1..N} : Cardinality(T) = 3}
+Subsets(N, lo, hi) == UNION {SubsetsOfSize(N, k) : k \in lo..hi}
 
 Sel(s, Test(_)) == SelectSeq(s, Test)
 
@@ -407,6 +413,11 @@ InstProfiles == << Prof(<<>>, FALSE, 0, FALSE), Prof(<<1>>, FALSE, 0, FALSE), Pr
 InstSaveCase(S, how, pi) ==
     [kind |-> "instsave", model |-> "S", how |-> how, muts |-> [i \in 1..Cardinality(S) |-> MutAlphabet[SeqOfSet(S)[i]]], prof |-> InstProfiles[pi]]
 
+\* same reservation as ProfileFits: a save that needs a DELETE statement is not combined with a condition on a written column
+MutProfileFits(ms, prof) ==
+    (\E i \in 1..Len(ms) : ms[i].null \/ Len(ms[i].delkeys) > 0) =>
+        \A k \in 1..Len(prof.conds) : \A i \in 1..Len(ms) : ms[i].col # prof.conds[k].col
+
 Writes(mu) == ~mu.null /\ (mu.shape # "puts" \/ Len(mu.pairs) > 0)
 Deletes(mu) == mu.null \/ Len(mu.delkeys) > 0
 DelClause(mu) == IF mu.null THEN mu ELSE [kw |-> mu.kw, attr |-> mu.attr, col |-> mu.col, shape |-> "keys", keys |-> mu.delkeys, static |-> mu.static]
@@ -489,7 +500,7 @@ Init ==
             case = CreateCase(S, pi) /\ out = Expect(case)
     \/ \E S \in MutSets : \E how \in {"save", "update"} : \E pi \in 1..Len(InstProfiles) :
             /\ case = InstSaveCase(S, how, pi)
-            /\ ProfileFits(case.muts, case.prof)
+            /\ MutProfileFits(case.muts, case.prof)
             /\ out = Expect(case)
     \/ \E pi \in 1..Len(InstProfiles) :
             case = InstDeleteCase(pi) /\ out = Expect(case)
